@@ -39,6 +39,21 @@ class KNp:
             n = Dim(int(n))
         return identity(n)
 
+    def cumsum(self, seq, *a, **k):
+        """running sums of a short list of (symbolic) dimensions, e.g. block boundaries"""
+        seq = list(seq)
+        if not all(isinstance(x, (Dim, int)) for x in seq):
+            return USc("np.cumsum(...)")
+        out, tot = [], 0
+        for x in seq:
+            tot = x + tot
+            out.append(tot)
+
+        class _L(list):
+            def tolist(self_):
+                return list(self_)
+        return _L(out)
+
     identity = eye
 
     def any(self, a):
